@@ -66,11 +66,14 @@ inductive Fin where
   | none | attach | get
   deriving DecidableEq, Repr
 
+/-- one Wait / WaitFor / WaitUntil call over the futures `[lo, lo + len)` -/
 structure Call where
   lo : Nat
-  hi : Nat
+  len : Nat
   timed : Bool
   deriving DecidableEq, Repr
+
+def Call.hi (c : Call) : Nat := c.lo + c.len
 
 structure Workload where
   n : Nat
